@@ -89,7 +89,11 @@ void Encoder::putPacket(const Packet& packet)
         bytesLeft -= bytesToAdd;
 
         if (isSegmentedFlag == SegmentType::lastSegment)
-            addNewCMPFrame(packet);
+        {
+            // Close the frame: nothing may share a frame with a segment
+            cmpFrame.resize(std::max(cmpFrame.size() - bytesLeft, minBytesPerMessage), 0);
+            bytesLeft = 0;
+        }
     }
 
 }
@@ -137,7 +141,7 @@ void Encoder::addNewDataHeader(const Packet& packet, uint16_t bytesToAdd, Segmen
 bool Encoder::checkIfSegmented(const Packet& packet)
 {
     bool isSegmented = (!cmpFrames.empty() && bytesLeft < sizeof(MessageHeader) + packet.getPayloadLength());
-    if (isSegmented)
+    if (isSegmented && bytesLeft != maxBytesPerMessage - sizeof(CmpHeader))
     {
         addNewCMPFrame(packet);
         isSegmented = (!cmpFrames.empty() && bytesLeft < sizeof(MessageHeader) + packet.getPayloadLength());
